@@ -72,6 +72,12 @@ fn programs(entry: Entry) -> Vec<(&'static str, Vec<Op>)> {
         v.push(("detach_keeps_running", vec![call(1), Op::Detach { slot: 1 }, Op::Sleep(20), Op::Ping { slot: 2, cancel: None }, call(0), Op::Stop { slot: 0 }, Op::Await { slot: 2, by_ref: false }]));
         v.push(("drop_owning_clone_alive", vec![call(1), Op::Drop { slot: 1 }, Op::Sleep(20), Op::Ping { slot: 0, cancel: None }, call(0), Op::Stop { slot: 0 }, Op::Await { slot: 0, by_ref: false }]));
         v.push(("drop_everything", vec![call(1), Op::Downgrade { slot: 0 }, Op::Drop { slot: 0 }, Op::Drop { slot: 1 }, Op::AwaitLog { tag: 1, what: 0, count: 1 }, Op::Upgrade { slot: 2 }]));
+        // a join future that was polled and then dropped must not affect the actor
+        v.push(("join_dropped_then_call", vec![call(1), Op::Join { slot: 1, cancel: Some(1) }, Op::Sleep(20), Op::Ping { slot: 0, cancel: None }, call(0), Op::Stop { slot: 0 }, Op::Await { slot: 0, by_ref: false }]));
+        // a pending (parked) join future, then a second join: the second one resolves at once with None
+        v.push(("join_parked_then_second_join", vec![call(1), Op::JoinPark { slot: 1, polls: 1 }, Op::Join { slot: 1, cancel: None }, Op::Ping { slot: 0, cancel: None }, Op::Stop { slot: 0 }, Op::Join { slot: 2, cancel: None }]));
+        // a pending join future, then detach: returns, actor keeps running
+        v.push(("join_parked_then_detach", vec![call(1), Op::JoinPark { slot: 1, polls: 1 }, Op::Detach { slot: 1 }, Op::Ping { slot: 3, cancel: None }, Op::Stop { slot: 3 }, Op::Await { slot: 3, by_ref: false }]));
     } else {
         v.push(("drop_everything", vec![call(0), Op::Downgrade { slot: 0 }, Op::Drop { slot: 0 }, Op::AwaitLog { tag: 1, what: 0, count: 1 }, Op::Upgrade { slot: 2 }]));
     }
@@ -226,6 +232,27 @@ fn record(evs: &[log::Ev], watchdog: bool) -> String {
 }
 
 fn run_cell(cell: &Cell) -> (String, usize) {
+    // a cell may block its thread for good (e.g. a blocking lock): run it on a thread of its own and give up
+    // after a generous wall-clock limit; the record then says HUNG (the driver re-runs such cells before judging)
+    let (tx, rx) = std::sync::mpsc::channel();
+    let prog = cell.prog.clone();
+    let name = cell.name.clone();
+    std::thread::spawn(move || {
+        let r = run_cell_inner(&Cell { name, prog });
+        let _ = tx.send(r);
+    });
+    match rx.recv_timeout(std::time::Duration::from_secs(12)) {
+        Ok(r) => r,
+        Err(_) => {
+            let evs = log::take();
+            let mut r = record(&evs, true);
+            r = r.replace("\"watchdog\": true", "\"watchdog\": true, \"hung\": true");
+            (r, evs.len())
+        }
+    }
+}
+
+fn run_cell_inner(cell: &Cell) -> (String, usize) {
     log::reset();
     actors::reset_globals();
     rt::reset_clock();
